@@ -186,6 +186,14 @@ class Check:
             rp_ = os.environ.get("VERIF_REPO", "/repo")
             p = subprocess.run([REPLAY_PY, os.path.join(VERIF, "symx", "replay.py"), path, "--repo", rp_], capture_output=True, text=True,
                                timeout=120, env={**os.environ, "PYTHONPATH": rp_, "PYTHONDONTWRITEBYTECODE": "1"})
+            if p.returncode == 0 and os.path.exists(path + ".verdict"):
+                try:
+                    with open(path + ".verdict", encoding="utf-8") as f:
+                        cand["v_replayed"] = json.load(f)
+                except (OSError, ValueError):
+                    pass
+                finally:
+                    os.remove(path + ".verdict")
             return path, p.returncode, (p.stdout + p.stderr)[-500:]
         except subprocess.TimeoutExpired:
             return path, 0 if cand["v"].get("kind", "").endswith("HANG") else 5, "replay timeout"
@@ -237,6 +245,12 @@ class Check:
         for (sig, c), (path, rc, out) in zip(jobs, results):
             if rc != 0:
                 not_reproduced.append({"sig": [str(s) for s in sig], "replay": path, "rc": rc, "out": out[-200:]})
+                continue
+            # the verdict of the replay (fresh interpreter, plain imports) is the one that counts
+            if isinstance(c.get("v_replayed"), dict):
+                c = dict(c, v=c["v_replayed"])
+            if str(c["v"].get("kind", "")) in ("child-interpreter-failed",):
+                self.engine_errors.append({"harness": "a child interpreter of the oracle failed to run", "replay": path, "v": c["v"]})
                 continue
             entry = next((e for e in self.known if finding_matches(e, self.pid, c)), None)
             if entry is not None:
